@@ -146,73 +146,56 @@ impl SwiftField for Field61 {
 
         // Parse customer reference (up to 16 characters until // or end)
         let remaining = &input[pos..];
-        let (customer_ref_part, after_customer_ref) =
-            if let Some(double_slash_pos) = remaining.find("//") {
-                (
-                    remaining[..double_slash_pos].to_string(),
-                    Some(&remaining[double_slash_pos + 2..]),
-                )
-            } else {
-                (remaining.to_string(), None)
-            };
 
-        // Customer reference is up to 16 characters
-        let customer_reference;
-        let mut supplementary_details = None;
-
-        if customer_ref_part.len() <= 16 {
-            customer_reference = customer_ref_part;
-        } else {
-            customer_reference = customer_ref_part[..16].to_string();
-            // If customer ref part is > 16 chars and no //, rest is supplementary details
-            if after_customer_ref.is_none() && customer_ref_part.len() > 16 {
-                supplementary_details = Some(customer_ref_part[16..].to_string());
-            }
-        }
-
-        // Parse bank reference and supplementary details (after //)
-        // Format after //: bank_reference[16x][\n]supplementary_details[34x]
-        // Supplementary details may be on a new line or directly concatenated
-        let bank_reference = if let Some(bank_ref_str) = after_customer_ref {
-            // Check if there's a newline separating bank ref from supplementary details
-            if let Some(newline_pos) = bank_ref_str.find('\n') {
-                // Bank reference is before newline, supplementary details after
-                let bank_ref = bank_ref_str[..newline_pos].to_string();
-                if newline_pos + 1 < bank_ref_str.len() {
-                    supplementary_details = Some(bank_ref_str[newline_pos + 1..].to_string());
-                }
-                Some(bank_ref)
-            } else if bank_ref_str.len() > 16 {
-                // No newline, but string is longer than bank ref max
-                // First 16 chars = bank reference, rest = supplementary details
-                supplementary_details = Some(bank_ref_str[16..].to_string());
-                Some(bank_ref_str[..16].to_string())
-            } else if !bank_ref_str.is_empty() {
-                Some(bank_ref_str.to_string())
-            } else {
-                None
-            }
-        } else {
-            None
+        // [34x]: supplementary details stand on a line of their own
+        let (references, supplementary_details) = match remaining.find('\n') {
+            Some(newline_pos) => (
+                &remaining[..newline_pos],
+                Some(remaining[newline_pos + 1..].to_string()),
+            ),
+            None => (remaining, None),
         };
 
-        // Validate customer reference length
+        // [16x][//16x]: customer reference, optionally followed by the bank reference
+        let (customer_reference, bank_reference) = match references.find("//") {
+            Some(double_slash_pos) => (
+                references[..double_slash_pos].to_string(),
+                Some(references[double_slash_pos + 2..].to_string()),
+            ),
+            None => (references.to_string(), None),
+        };
+
+        // A reference of more than 16 characters is an error: it is not cut, and what does not
+        // fit is not moved into another component
         if customer_reference.len() > 16 {
             return Err(ParseError::InvalidFormat {
-                message: "Field 61 customer reference exceeds 16 characters".to_string(),
+                message: format!(
+                    "Field 61 customer reference exceeds 16 characters, found {}",
+                    customer_reference.len()
+                ),
             });
         }
-
         parse_swift_chars(&customer_reference, "Field 61 customer reference")?;
 
         if let Some(ref bank_ref) = bank_reference {
+            if bank_ref.is_empty() || bank_ref.len() > 16 {
+                return Err(ParseError::InvalidFormat {
+                    message: format!(
+                        "Field 61 bank reference must be 1 to 16 characters, found {}",
+                        bank_ref.len()
+                    ),
+                });
+            }
             parse_swift_chars(bank_ref, "Field 61 bank reference")?;
         }
 
         if let Some(ref supp_details) = supplementary_details {
-            if supp_details.len() > 34 {
+            if supp_details.is_empty() || supp_details.len() > 34 {
                 return Err(ParseError::InvalidFormat {
-                    message: "Field 61 supplementary details exceed 34 characters".to_string(),
+                    message: format!(
+                        "Field 61 supplementary details must be 1 to 34 characters, found {}",
+                        supp_details.len()
+                    ),
                 });
             }
             parse_swift_chars(supp_details, "Field 61 supplementary details")?;
@@ -251,14 +234,11 @@ impl SwiftField for Field61 {
         if let Some(ref bank_reference) = self.bank_reference {
             result.push_str("//");
             result.push_str(bank_reference);
+        }
 
-            // Supplementary details come on new line after bank reference if present
-            if let Some(ref supplementary_details) = self.supplementary_details {
-                result.push('\n');
-                result.push_str(supplementary_details);
-            }
-        } else if let Some(ref supplementary_details) = self.supplementary_details {
-            // If no bank reference but supplementary details exist, append after customer ref
+        // Supplementary details always stand on a line of their own
+        if let Some(ref supplementary_details) = self.supplementary_details {
+            result.push('\n');
             result.push_str(supplementary_details);
         }
 
